@@ -47,8 +47,13 @@ TResult ==
                                  /\ (Cur.bodycomp => Cur.hdrenc)
                                  /\ (sc.proto = "connect" => Cur.hdrenc = Cur.bodycomp)
        \* a client that could not be configured: every API reports that error, the transport is never reached
-       [] sc.op = "client_init_fail" -> /\ Cur.reached = 0 /\ Len(Cur.codes) >= 8
-                                        /\ \A i \in 1..Len(Cur.codes) : Cur.codes[i] = Cur.codes[1] /\ Cur.codes[i] \in 1..16
+       [] sc.op = "client_init_fail" ->
+            /\ Cur.reached = 0 /\ Len(Cur.codes) >= 8
+            /\ IF sc.used = "badurl"
+               \* (a URL the request cannot be built from: nothing panics or blocks, every operation that waits for a
+               \*  response -- CallUnary, CloseAndReceive, the server stream's Err, the bidi Receive -- fails, coded)
+               THEN Len(Cur.codes) = 10 /\ \A i \in {1, 3, 5, 8} : Cur.codes[i] \in 1..16
+               ELSE \A i \in 1..Len(Cur.codes) : Cur.codes[i] = Cur.codes[1] /\ Cur.codes[i] \in 1..16
        [] OTHER -> FALSE
 
 Normal == TReset \/ (TResult /\ Consume /\ UNCHANGED failed)
